@@ -41,6 +41,23 @@ def dupdate {β} (d : List (Name × β)) (items : List (Name × β)) : List (Nam
 
 def keys {β} (d : List (Name × β)) : List Name := d.map (·.1)
 
+/-! ## `sorted()` on lists of strings -/
+
+/-- lexicographic order on code points (`str.__le__`) -/
+def strLe : Str → Str → Bool
+  | [], _ => true
+  | _ :: _, [] => false
+  | a :: as, b :: bs => if a.toNat < b.toNat then true else if b.toNat < a.toNat then false else strLe as bs
+
+def insertSorted (a : Str) : List Str → List Str
+  | [] => [a]
+  | b :: r => if strLe a b then a :: b :: r else b :: insertSorted a r
+
+/-- `sorted(attrs)` (insertion sort) -/
+def sortStrs : List Str → List Str
+  | [] => []
+  | a :: r => insertSorted a (sortStrs r)
+
 /-! ## (a) declaration blocks -/
 
 /-- values a declaration can bind -/
@@ -197,9 +214,22 @@ def declOf (c : GenCfg) (i : Idents) (x : Name) : Decl :=
 /-- the declaration block, given the order in which the set was iterated -/
 def declBlock (c : GenCfg) (i : Idents) (order : List Name) : List Decl := order.map (declOf c i)
 
-/-- is `order` an iteration order of the set `to_write`? -/
+/-- the order in which a set is printed, given the order `iter` in which Python iterates it: since 8e8e5a7 the
+generator walks `sorted(the set)` (regenerated flag; `false` = the iteration order itself, the old behaviour) -/
+def emitOrder (sorted : Bool) (iter : List Name) : List Name := if sorted then sortStrs iter else iter
+
+/-- the declaration block `write_variable_declares` emits when Python iterates `to_write` in the order `iter` -/
+def emittedBlock (c : GenCfg) (i : Idents) (iter : List Name) : List Decl :=
+  declBlock c i (emitOrder Generated.Paths8.declsSorted iter)
+
+/-- is `order` what the generator emits for the set `to_write` (for *some* iteration order of the set)? -/
 def acceptsOrder (c : GenCfg) (i : Idents) (limit : Option (List Name)) (order : List Name) : Bool :=
-  order.isPerm (toWrite c i limit)
+  order.isPerm (toWrite c i limit) && (order == emitOrder Generated.Paths8.declsSorted order)
+
+/-- the `__M_locals` snapshot `__M_dict_builtin(a=a, …)` built from the set `argument_declared` iterated as `iter`;
+`val` gives the current value of each local -/
+def localsSnapshot (iter : List Name) (val : Name → Val) : List (Name × Val) :=
+  (emitOrder Generated.Paths8.localsSnapshotSorted iter).map fun n => (n, val n)
 
 /-! ### the `__M_locals` snapshot
 
@@ -306,8 +336,8 @@ def Line.format : Line → String
   | .magicNumber _ => "_magic_number = %r"
   | .modifiedTime _ => "_modified_time = %r"
   | .enableLoop _ => "_enable_loop = %r"
-  | .templateFilename _ => "_template_filename = %r"
-  | .templateUri _ => "_template_uri = %r"
+  | .templateFilename _ => "_template_filename = %a"
+  | .templateUri _ => "_template_uri = %a"
   | .sourceEncoding _ => "_source_encoding = %r"
   | .userImport _ => "<imp>"
   | .exports _ => "_exports = %r"
@@ -417,21 +447,6 @@ def renderPrefix : Str := "render_".toList
 
 /-- `Template.has_def(name)`: `hasattr(self.module, "render_%s" % name)` -/
 def hasDef (attrs : List Str) (n : Name) : Bool := attrs.contains (renderPrefix ++ n)
-
-/-- lexicographic order on code points (`str.__le__`) -/
-def strLe : Str → Str → Bool
-  | [], _ => true
-  | _ :: _, [] => false
-  | a :: as, b :: bs => if a.toNat < b.toNat then true else if b.toNat < a.toNat then false else strLe as bs
-
-def insertSorted (a : Str) : List Str → List Str
-  | [] => [a]
-  | b :: r => if strLe a b then a :: b :: r else b :: insertSorted a r
-
-/-- `sorted(attrs)` (insertion sort) -/
-def sortStrs : List Str → List Str
-  | [] => []
-  | a :: r => insertSorted a (sortStrs r)
 
 /-- `Template.list_defs()`: `[i[7:] for i in dir(self.module) if i[:7] == "render_"]` (`dir` sorts) -/
 def listDefs (attrs : List Str) : List Name :=
